@@ -38,6 +38,10 @@ type State12 struct {
 	LocalKeySignature          []byte
 
 	PeerCertificatesVerified bool
+	// ResumedConnectionVerified records that the application's VerifyConnection
+	// callback has accepted this resumed connection (it is asked once, although the
+	// peer's final flight may be parsed again when it is retransmitted).
+	ResumedConnectionVerified bool
 
 	remoteServerKeyExchange *handshake.MessageServerKeyExchange
 }
